@@ -66,6 +66,12 @@ def gen_reaction_config(rng, limit):
             c["parser"] = rng.choice(base.PARSERS)
             if c["parser"][1]:
                 cfg["aam"] = rng.random() < 0.9
+        # the groups through the JSON-style entry points (ReactionProxy.from_dict itself returns a plain Proxy: C14)
+        if not c.get("drive") and c.get("parser") is None and rng.random() < 0.25:
+            base.make_dict(rng, c)
+            if c.get("dict"):
+                c["dict"]["entry"] = rng.choice(["groups_from_dict", "groups_from_dict", "from_dict_single"])
+                c["cls"] = "ReactionProxy"
         return c
     raise RuntimeError("no reaction configuration found")
 
@@ -177,7 +183,10 @@ def run_impl(c):
         return {"its": [its[i] for i in sel if i < len(its)], "pairs": [pairs[i] for i in sel], "status": status,
                 "stays": stays, "n": len(pairs), "n_its": len(its), "msgs": msgs}
     cfg = c["cfg"]
-    p = pc.build_proxy(cfg, cls=ReactionProxy, how=c["how"], parser=c.get("parser"))
+    if c.get("dict"):
+        p = base._from_dict(c, ReactionProxy)
+    else:
+        p = pc.build_proxy(cfg, cls=ReactionProxy, how=c["how"], parser=c.get("parser"))
     msgs = []
     try:
         if pc.dump_proxy(p, any_parser=c.get("parser") is not None) != cfg:
@@ -238,6 +247,13 @@ def coq_case(c, out):
         # not modelled (simple-graph parser / parse-time map numbers left in place by enable_aam=False):
         # only the checkers run on these outputs
         agree = "true"
+    if c.get("dict"):
+        conf = c["dict"]["conf"]
+        defs["tbl"] = pc.table_term(pc.conf_patterns(conf))
+        defs["jgroups"] = pc.jgroups_term(conf["groups"])
+        aam = "(Some %s)" % ct.b(conf["enable_aam"]) if "enable_aam" in conf else "None"
+        agree = "rdict_agree (proxy_from_dict string (jparse $tbl) %s $jgroups %s) $cfg ($out, %s)" % (
+            pc.jcore_term(conf["core"]), aam, base.STATUS[out["status"]])
     if out["status"] == "done" and c["cfg"]["aam"]:
         spec = "C15_all_okb $its $out"
     elif out["status"] == "done":
@@ -308,6 +324,8 @@ def classes(c, out):
             yield "history_splits_enumeration=yes"
     if c.get("parser") is not None:
         yield "parser=use_multigraph:%s,init_aam:%s" % tuple(c["parser"])
+    if c.get("dict"):
+        yield "built_from_dict=%s" % c["dict"]["entry"]
     if len(set((p, tuple(a)) for p, a in cfg["core"])) < len(cfg["core"]):
         yield "equal_core_graphs=yes"
     if "" in pc.all_patterns(cfg):
